@@ -57,6 +57,11 @@ var conflictEdits = []conflictEdit{
 	{"value-type-extra-id-only", "type Xid { id: ID! a: Int }", "type Xid { a: Int }"},
 	{"input-subset", "input SubIn { a: Int b: Int }", "input SubIn { a: Int }"},
 	{"input-partial-overlap", "input PartIn { a: Int b: Int }", "input PartIn { a: Int c: Int }"},
+	{"shared-id-field-different-type", "type ShId { id: ID! a: Int }", "type ShId { id: String a: Int }"},
+	{"shared-id-field-different-type-only-id", "type ShIdOnly { id: ID! }", "type ShIdOnly { id: Int }"},
+	{"shared-id-field-different-nullability", "type ShIdN { id: ID! a: Int }", "type ShIdN { id: ID a: Int }"},
+	{"shared-id-field-different-arg-set", "type ShIdA { id: ID! a: Int }", "type ShIdA { id(x: Int): ID! a: Int }"},
+	{"input-shared-id-field-different-type", "input ShIdIn { id: ID! a: Int }", "input ShIdIn { id: Int a: Int }"},
 	{"shared-field-different-type", "type Sh { a: Int }", "type Sh { a: String }"},
 	{"shared-field-different-nullability", "type Sh { a: Int }", "type Sh { a: Int! }"},
 	{"shared-field-different-list", "type Sh { a: [Int] }", "type Sh { a: Int }"},
